@@ -210,6 +210,8 @@ class Ctx(InterpMixin, ModelsMixin):
         self.witness_ns = {}
         self.witness_state = {}
         self.entry_ns = {}
+        self.elem_cache = {}      # element kind -> {ref id: (ref, materialised object)}
+        self.fold_done = set()
         self.be_cache = {}        # (Int term id, width) -> (term, byte terms): canonical big-endian bytes
         self.applied = {}         # callee function -> (contract, namespace) of its last application
 
